@@ -103,6 +103,7 @@ package canary
 //@   callpre (*Canary).send: flags == tcp.SYN|tcp.ACK ==> state.RecvNext == hdr.SeqNum + 1 && state.SendNext == state.InitialSendSequenceNumber + 1 && state.SendUnacknowledged == state.InitialSendSequenceNumber
 //@   callpre (*Canary).send: flags == tcp.ACK && hdr.Ctrl & tcp.FIN == 0 && !fresh(state) ==> state.RecvNext == old(state.RecvNext) + uint32(len(hdr.Payload))
 //@   callpre (*Canary).send: flags == tcp.FIN|tcp.ACK ==> state.RecvNext == hdr.SeqNum + uint32(len(hdr.Payload)) + 1
+//@   callpre (*Canary).send: flags == tcp.ACK && hdr.Ctrl & tcp.FIN == tcp.FIN && !fresh(state) && state.State == SocketFinWait2 && len(hdr.Payload) == 0 ==> state.RecvNext == hdr.SeqNum + 1
 //@   check frame
 //@   modifies c.stateTable, type(State)
 //
